@@ -1088,6 +1088,78 @@ def _matchpy(ctx, model):
                f"{n.name} <-> {opname}: fields {fwd}" if not problems else
                "; ".join(problems), {"to": fwd, "from": back})
     ctx.floor("matchpy to/from pairs", pairs, 20)
+    _replacement(ctx, model)
+
+
+def _replacement(ctx, model):
+    """ToFromReplacement.__call__ hands the user's callback the bindings matchpy
+    found, converted back structure-preservingly: expression -> expression,
+    multiset -> multiset with the same counts, tuple -> tuple in order."""
+    c = model.cls(f"{TF}:ToFromReplacement")
+    mem = c.members.get("__call__")
+    if mem is None or mem.kind != "func" or mem.node.args.kwarg is None:
+        raise AnalysisError("ToFromReplacement.__call__(**kwargs) not found")
+    fn = mem.node
+    KW = ("kwargs",)
+    V = ("val", KW)
+
+    def frm(x):
+        return ("call", "self.from_matchpy_expr", (x,), ())
+
+    forms = {
+        "expression": frm(V),
+        "multiset": ("call", "multiset.Multiset",
+                     (("dict", frm(("key", V)), ("val", V), ("items", V)),), ()),
+        "tuple": ("seq", "tuple", frm(("elem", V)), V, ()),
+    }
+    kinds = set()
+    for ps in summarize(fn, node_param=False, loop_mode="1"):
+        kind = None
+        for _, pol, v in ps.conds:
+            if pol and isinstance(v, tuple) and v[0] == "call" and \
+                    v[1] == "isinstance" and v[2][0] == V:
+                t = str(v[2][1])
+                kind = "expression" if "MatchpyExpression" in t else \
+                    "multiset" if "Multiset" in t else \
+                    "tuple" if "tuple" in t else t
+        if ps.term == "raise":
+            continue
+        if kind is None or kind not in forms:
+            raise AnalysisError(f"ToFromReplacement.__call__: binding kind {kind} "
+                                "has no reference conversion")
+        kinds.add(kind)
+        rv = ps.retval
+        conv = None
+        if isinstance(rv, tuple) and rv[0] == "call" and \
+                rv[1] == "self.to_matchpy_expr" and len(rv[2]) == 1:
+            inner = rv[2][0]
+            if inner[0] == "call" and inner[1] == "self.f" and not inner[2] and \
+                    len(inner[3]) == 1 and inner[3][0][0] is None:
+                d = inner[3][0][1]
+                if d[0] == "dict" and d[1] == ("key", KW) and \
+                        d[3] == ("items", KW):
+                    conv = d[2]
+        if conv is None:
+            ctx.ob(f"T/matchpy/replacement/{kind}/callback-gets-all-bindings",
+                   False, where(mem), "the result is not "
+                   "to_matchpy_expr(f(**{name: converted binding}))")
+            continue
+        ok = conv == forms[kind]
+        if kind == "multiset" and not ok:
+            # iterating a multiset repeats each element by its count, so an
+            # order-insensitive, duplicate-keeping rebuild is the same thing
+            ok = conv[0] == "call" and conv[1] == "multiset.Multiset" and \
+                len(conv[2]) == 1 and conv[2][0][0] == "seq" and \
+                conv[2][0][1] in ("gen", "list", "tuple") and \
+                conv[2][0][2:] == (frm(("elem", V)), V, ())
+        ctx.ob(f"T/matchpy/replacement/{kind}/binding-converted", ok, where(mem),
+               f"a {kind} binding is converted back element by element, "
+               "structure kept" if ok else
+               f"a {kind} binding reaches the callback as {_short_v(conv)}; "
+               f"expected {_short_v(forms[kind])} (for a multiset: every element "
+               "converted, its count kept)")
+    ctx.ob("T/matchpy/replacement/kinds", kinds == set(forms), where(mem),
+           f"binding kinds converted: {sorted(kinds)}")
 
 
 def _prop_fields(a):
